@@ -2,6 +2,7 @@ import Setec.Proofs.DB
 import Setec.Proofs.Crypto
 import Setec.Generated.Facts
 import Setec.Proofs.DBText
+import Setec.Proofs.CodecOrder
 /-!
 # C03 - acknowledged state survives restart exactly; schema-v1 files stay readable
 
@@ -79,5 +80,19 @@ theorem clear_document_roundtrip (m : KV.SMap) :
 them sorted as strings, so "10" precedes "2"): every tree reads back as itself -/
 theorem clear_text_roundtrip (t : Codec.PTree) : DBText.readTree (DBText.renderTree t) = some t :=
   DBText.readTree_render t
+
+/-- the contents do not depend on the order in which the clear document lists the secrets or
+any secret's versions: encoding/json writes map keys sorted as strings (version "10" before
+"2"), the model's `encode` in numeric order; either way - and for any other order - the
+document decodes to the same contents.  (`t'` has each secret's versions permuted, `t` is any
+permutation of `t'`.) -/
+theorem schema_order_independent (m : KV.SMap) (t' t : Codec.PTree)
+    (h1 : Codec.EntryWise (Codec.encode m) t') (h2 : t'.Perm t) : Codec.decode t = some m :=
+  Codec.decode_any_order m t' t h1 h2
+
+/-- non-vacuity: a secret whose two version entries are swapped -/
+example (s : KV.Secret) (a b : String × KV.Bytes) (h : (Codec.encSecret s).versions = [a, b]) :
+    Codec.decSecret { (Codec.encSecret s) with versions := [b, a] } = some s :=
+  Codec.decSecret_perm s _ ⟨by rw [h]; exact List.Perm.swap _ _ _, rfl, rfl⟩
 
 end Setec.C03
